@@ -25,6 +25,11 @@
  */
 
 #include "ares_private.h"
+#ifdef CARES_VERIF
+#  include "ares_verif.h"
+void (*ares_verif_now_cb)(long long *sec, unsigned int *usec)  = NULL;
+void (*ares_verif_rand_cb)(unsigned char *buf, size_t len)      = NULL;
+#endif
 
 #if defined(_WIN32) && !defined(MSDOS)
 
@@ -60,6 +65,17 @@ void ares_tvnow(ares_timeval_t *now)
    * in any case the time starting point does not change once that the
    * system has started up. */
   struct timespec tsnow;
+
+#ifdef CARES_VERIF
+  if (ares_verif_now_cb != NULL) {
+    long long    vsec  = 0;
+    unsigned int vusec = 0;
+    ares_verif_now_cb(&vsec, &vusec);
+    now->sec  = (ares_int64_t)vsec;
+    now->usec = vusec;
+    return;
+  }
+#endif
 
   if (clock_gettime(CLOCK_MONOTONIC, &tsnow) == 0) {
     now->sec  = (ares_int64_t)tsnow.tv_sec;
